@@ -6,7 +6,8 @@ BATCH = 10
 BATCH_TIMEOUT = 3000
 RULE = ("case = (port type native/AXI, data width 8..128, base, power-of-two range, length <= or > range, random-data / "
         "random-address flags, memory timing profile, corruption set: none / one / few / many / first / last position, seed); "
-        "the real generator core then the real checker core run on the same store (pulsed core stub or AXI slave stub), k "
+        "the real generator core then the real checker core run on the same store (pulsed core stub, AXI slave stub, or two "
+        "ports of the real crossbar + controller with the reference DRAM on DFI and refresh running), k "
         "stored words are corrupted in between; relational oracle over the two cores' own port logs: every generator write "
         "lies in [base, end), the checker reads the same address sequence, and errors at done == number of positions whose "
         "returned word differs from the word the generator wrote at that position (== k when no address repeats); both reach "
@@ -40,6 +41,22 @@ def cases(tier, seed):
                                                "-ra" if c["random_addr"] else "", c["corrupt"])
         c["cost"] = length_words
         out.append(c)
+    # the same two cores on two ports of the real crossbar + controller + reference DRAM (rows, banks, refresh in the way)
+    for k in range(12 if tier == "quick" else 96):
+        r = random.Random("C14/%d/%s/core/%d" % (seed, tier, k))
+        dw = r.choice([16, 32, 64])
+        wb = dw // 8
+        range_words = r.choice([64, 128, 256])
+        long_run = (k % 4 == 3)
+        length_words = r.randint(range_words + 1, 2 * range_words) if long_run else r.randint(range_words // 2, range_words)
+        c = dict(port="core", dw=dw, base=r.randrange(0, 64) * range_words * wb, range_bytes=range_words * wb,
+                 length=length_words * wb, random_data=bool(k % 2), random_addr=bool((k // 2) % 3 == 2),
+                 corrupt=CORRUPT[k % len(CORRUPT)], cmd_buffer_depth=r.choice([4, 8, 16]), refresh=(k % 6 != 5),
+                 seed="C14/%d/core/%d" % (seed, k))
+        c["name"] = "core%03d-w%d-%s%s%s-%s" % (k, dw, "long" if long_run else "short", "-rd" if c["random_data"] else "",
+                                                "-ra" if c["random_addr"] else "", c["corrupt"])
+        c["cost"] = length_words * 8
+        out.append(c)
     return out
 
 
@@ -55,7 +72,12 @@ def run_case(c):
     wb = dw // 8
     ashift = wb.bit_length() - 1
     aw = 16
-    if c["port"] == "native":
+    backend = None
+    if c["port"] == "core":
+        from ..corebackend import CoreBackend
+        backend = CoreBackend(2, databits=dw, refresh=c["refresh"], cmd_buffer_depth=c["cmd_buffer_depth"])
+        pw, pr = backend.ports
+    elif c["port"] == "native":
         pw, pr = LiteDRAMNativePort("both", aw, dw), LiteDRAMNativePort("both", aw, dw)
     else:
         from litedram.frontend.axi import LiteDRAMAXIPort
@@ -67,9 +89,25 @@ def run_case(c):
             self.submodules.gen = _LiteDRAMBISTGenerator(pw)
             self.submodules.chk = _LiteDRAMBISTChecker(pr)
 
-    dut = DUT()
-    store = Store(wb)
-    if c["port"] == "native":
+    if backend is not None:
+        dut = backend.dut
+        dut.submodules.gen = _LiteDRAMBISTGenerator(pw)
+        dut.submodules.chk = _LiteDRAMBISTChecker(pr)
+        store = backend.store
+        procs = backend.processes()
+        events = backend.events
+
+        def gen_writes():
+            return [(a, d) for (_, a, d, we, valid) in backend.wbeats[0] if valid]
+
+        def chk_reads():
+            return [(a, d) for (_, a, d, taken) in backend.rbeats[1]]
+    else:
+        dut = DUT()
+        store = Store(wb)
+    if backend is not None:
+        pass
+    elif c["port"] == "native":
         stub = CoreStub([pw, pr], store, r, cmd_ready_prob=c["cmd_ready_prob"], extra_lat=tuple(c["extra_lat"]),
                         long_stall=c["long_stall"], max_outstanding=40)
         procs = [stub.process()]
@@ -152,7 +190,7 @@ def run_case(c):
     cycles, reason = run_sim(dut, procs + [main()], lambda: state["done"], 2 * bound + 2000, wall_limit=900)
     if reason == "wall":
         return dict(verdict="inconclusive", why="wall-clock watchdog", violations=[], stats={}, nontrivial=False, signature="")
-    v = res["v"] + list(events)
+    v = res["v"] + list(events) + (backend.dfi_events() if backend is not None else [])
     if reason == "cycle-cap" and not v:
         v.append(dict(kind="no-progress"))
     gw, cr = gen_writes(), chk_reads()
